@@ -320,46 +320,6 @@ func checkElementCopies(st *sim.Store) error {
 	return nil
 }
 
-// abortedCalls drives every exported helper that is documented (or bound) to panic on arguments that do not fit
-// the transaction — after it has already hashed part of its input — and recovers, once per hasher pool and a few
-// times over so that every pooled object of this P is touched. It returns the number of panics recovered.
-func abortedCalls(cs consensus.State, b types.Block) int {
-	n := 0
-	try := func(f func()) {
-		defer func() {
-			if recover() != nil {
-				n++
-			}
-		}()
-		f()
-	}
-	v1 := types.Transaction{SiacoinOutputs: []types.SiacoinOutput{{Value: types.NewCurrency64(7), Address: types.Address{1}}}, ArbitraryData: [][]byte{{1, 2, 3}}}
-	if len(b.Transactions) > 0 {
-		v1 = sim.CloneV1(b.Transactions[0])
-	}
-	v2 := types.V2Transaction{ArbitraryData: []byte{9}}
-	if txns := b.V2Transactions(); len(txns) > 0 {
-		v2 = sim.CloneV2(txns[0])
-	}
-	for rep := 0; rep < 3; rep++ {
-		// consensus pool: covered indices one past the end, after fields that are present
-		try(func() {
-			cs.PartialSigHash(v1, types.CoveredFields{SiacoinOutputs: []uint64{0, uint64(len(v1.SiacoinOutputs))}})
-		})
-		try(func() {
-			cs.PartialSigHash(v1, types.CoveredFields{ArbitraryData: []uint64{uint64(len(v1.ArbitraryData))}, MinerFees: []uint64{uint64(len(v1.MinerFees))}})
-		})
-		try(func() { cs.WholeSigHash(v1, types.Hash256{1}, 0, 0, []uint64{uint64(len(v1.Signatures))}) })
-		// types pool: a resolution of no kind cannot be encoded
-		bad := sim.CloneV2(v2)
-		bad.FileContractResolutions = append(bad.FileContractResolutions, types.V2FileContractResolution{})
-		try(func() { _ = bad.ID() })
-		try(func() { _ = bad.FullHash() })
-		try(func() { _ = cs.InputSigHash(bad) })
-	}
-	return n
-}
-
 type outcome struct {
 	verdict string
 	state   []byte
@@ -479,7 +439,7 @@ func checkBlock(ch *sim.Chain, b types.Block, bs consensus.V1BlockSupplement, la
 	// (5) history independence: calls of the library's documented-to-panic helpers that abort half-way (and are
 	// recovered by the caller, as an RPC handler would) must not influence what the next calls on the same
 	// inputs return: every pooled hasher / shared scratch object has to come back clean
-	if aborted := abortedCalls(cs, b); aborted > 0 {
+	if aborted := sim.AbortedCalls(cs, b); aborted > 0 {
 		if o := run(ch, b, bs); !o.equal(first) {
 			return stats.Failf("C09/history/after-recovered-panic", "after %d recovered panics in sighash/ID helpers the same inputs give a different result: %q vs %q (%s)", aborted, first.verdict, o.verdict, label)
 		}
